@@ -501,9 +501,10 @@ func runCrashCase(run *lib.Run, c jcrash, o lib.Opts) {
 		}
 		j := opIndex(cum, pt.N)
 		term := fmt.Sprintf("(%s, %d%%nat, %d%%nat, 0%%nat, %s)", lib.CoqBool(pt.Class == "meta"), eff, j, coqSnap(s))
-		if pt.Class == "data" && j >= 1 && j <= len(c.Ops) && c.Ops[j-1].Op == "deldata" {
-			// key-value deletions of an instance delete: a case of their own (known finding), so that
-			// they cannot mask anything in the main case
+		if j >= 1 && j <= len(c.Ops) && c.Ops[j-1].Op == "deldata" {
+			// crash points inside an instance delete (its key-value deletions, and the instant before
+			// its blob save): a case of their own (known finding), so that they cannot mask anything
+			// in the main case
 			psDel = append(psDel, term)
 		} else {
 			ps = append(ps, term)
@@ -551,10 +552,12 @@ func runCrashCase(run *lib.Run, c jcrash, o lib.Opts) {
 		cd.Name += "/instance-delete-data-points"
 		cd.Points = nil
 		for _, pt := range pts {
+			cum := ref.cumMeta
 			if pt.Class == "data" {
-				if j := opIndex(ref.cumData, pt.N); j >= 1 && j <= len(c.Ops) && c.Ops[j-1].Op == "deldata" {
-					cd.Points = append(cd.Points, pt)
-				}
+				cum = ref.cumData
+			}
+			if j := opIndex(cum, pt.N); j >= 1 && j <= len(c.Ops) && c.Ops[j-1].Op == "deldata" {
+				cd.Points = append(cd.Points, pt)
 			}
 		}
 		run.Add("crash-instance-delete", mk(psDel), cd, "crashdel/"+strings.Join(kinds, ","))
